@@ -1238,6 +1238,9 @@ class StoreLib(LibBase):
             normal_requires=lambda c: z3.Or(c.args["capacity"].inf, c.args["capacity"].t > 0)
             if c.args["capacity"].inf is not None else c.args["capacity"].t > 0,
             post=lambda c: [Clause("capacity-recorded", lambda c: V.eq(c.new.f["capacity"], c.args["capacity"]), ("C01",))]
+            + [Clause("starts-empty." + nm, (lambda nm: lambda c: c.new.f[nm].len == 0)(nm), ("C01", "C02"))
+               for nm in (QP, RP, QG, RG, RE, ITEMS) + ((RD, RI) if p["ready"] else ())]
+            + ([Clause("mode-recorded", lambda c: c.new.f["mode"].t == c.args["mode"].t, ("C06",))] if p["lifo"] else [])
             + ([Structural("starts-the-activation-process", lambda c: len(
                 [x for x in c.new.ghost.get("spawned", []) if x[0] == "fleet_activation_process"]) == 1, ("C14",))]
                if p["fleet"] else []),
